@@ -133,7 +133,8 @@ type exec struct {
 	raws    []*udpsvc.RawSocket
 	names   []string
 
-	abort    atomic.Bool // set at the first missed liveness bound: the run is void (retried or judged on safety only)
+	abort    atomic.Bool          // set at the first missed liveness bound: the run is void (retried or judged on safety only)
+	forbid   map[[2]uint32]string // (session, seq) of datagrams sent to a name while it did not resolve
 	mu       sync.Mutex
 	liveMiss []string
 	labels   map[string]bool
@@ -158,12 +159,75 @@ type outcome struct {
 	detector   string
 }
 
+// directOut: names are resolved by the relay itself (direct client of the server or of the chained hop).
+func (x *exec) directOut() bool { return x.p.Topology != "peer" }
+
+func (x *exec) paceTo(c *udpsvc.Client, d, fill int, what string) bool {
+	if x.abort.Load() {
+		return false
+	}
+	seq, ok, attempts := c.Paced(d, fill, pacedWait, pacedTries)
+	if attempts > 1 {
+		x.label("paced-retried")
+	}
+	if !ok {
+		x.miss(fmt.Sprintf("session %d seq %d to dest %d (%s, %s): no echo after %d datagrams", c.ID, seq, d, x.w.DestAddr(d), what, attempts))
+	}
+	return ok
+}
+
+// tour: one session changes its target again and again.
+func (x *exec) tour(c *udpsvc.Client, t *tourStops, fill int) {
+	step := func(d int, label string) bool {
+		if !x.paceTo(c, d, fill, label) {
+			return false
+		}
+		x.label("tour:" + label)
+		return true
+	}
+	if x.directOut() {
+		// (again) unresolvable; only this session uses the name and it is idle now
+		udpsvc.SetName(x.w.Dests[t.F].Name, udpsvc.NameRule{Fail: x.p.Dests[t.F].Fail == "servfail"})
+	}
+	if !step(t.A, "first-name") || !step(t.B, "name-to-other-name") || !step(t.A, "name-back") {
+		return
+	}
+	if x.directOut() {
+		// F does not resolve: datagrams for it must be observed nowhere - in particular not at the
+		// address the session resolved last (A's)
+		for i := 0; i < 2; i++ {
+			seq := c.NextSeq()
+			x.mu.Lock()
+			x.forbid[[2]uint32{uint32(c.ID), seq}] = x.p.Dests[t.F].Fail
+			x.mu.Unlock()
+			c.Send(seq, t.F, fill)
+		}
+		x.label("tour:name-to-failing-name:" + x.p.Dests[t.F].Fail)
+		// fence: the session's uplink is FIFO, so once A echoes again the two datagrams above have been
+		// dealt with (dropped) and the name may become resolvable
+		if !step(t.A, "failing-name-to-name") {
+			return
+		}
+		udpsvc.SetName(x.w.Dests[t.F].Name, udpsvc.NameRule{IP: x.w.IPs[x.p.Dests[t.F].Sock]})
+		if !step(t.F, "failing-name-now-resolvable") {
+			return
+		}
+	} else if !step(t.F, "name-inside-upstream") {
+		return
+	}
+	if !step(t.IP, "name-to-ip") || !step(t.B, "ip-to-name") || !step(t.AP, "same-name-other-port") || !step(t.A, "same-name-first-port") {
+		return
+	}
+}
+
 func (x *exec) runOps(c *udpsvc.Client, ops []planOp) {
 	for _, o := range ops {
 		if x.abort.Load() {
 			return
 		}
 		switch o.Kind {
+		case "tour":
+			x.tour(c, o.Tour, o.Fill)
 		case "rebind":
 			c.Rebind()
 			x.label("rebind")
@@ -213,7 +277,7 @@ func (x *exec) sendGarbage(kinds []int, fromLive bool) {
 }
 
 func runPlan(p *plan, workDir string) (out outcome) {
-	x := &exec{p: p, labels: map[string]bool{}, gLabels: map[string]int{}}
+	x := &exec{p: p, labels: map[string]bool{}, gLabels: map[string]int{}, forbid: map[[2]uint32]string{}}
 	scn := scenarioCounter.Add(1) + uint32(os.Getpid())<<12
 	fail := func(sig, format string, args ...any) {
 		if out.violation == "" {
@@ -241,7 +305,16 @@ func runPlan(p *plan, workDir string) (out outcome) {
 	defer w.Close()
 	for i, d := range p.Dests {
 		name := ""
-		if d.Name {
+		switch {
+		case d.AltPort:
+			// the very same name as another dest, other port
+			w.AddDestAltPort(d.Sock, w.Dests[d.SameAs].Name)
+			continue
+		case d.Flaky && p.Topology != "peer":
+			name = fmt.Sprintf("f%d-%x.c11.test", i, scn)
+			udpsvc.SetName(name, udpsvc.NameRule{Fail: d.Fail == "servfail"}) // no IP: NXDOMAIN
+			x.names = append(x.names, name)
+		case d.Name:
 			name = fmt.Sprintf("n%d-%x.c11.test", i, scn)
 			udpsvc.SetName(name, udpsvc.NameRule{IP: w.IPs[d.Sock], Delay: time.Duration(d.DelayMs) * time.Millisecond})
 			x.names = append(x.names, name)
@@ -254,6 +327,7 @@ func runPlan(p *plan, workDir string) (out outcome) {
 		}
 	}()
 	w.SetAltEvery(p.AltEvery)
+	w.SetDropFirst(p.DropFirst)
 
 	spec := &udpsvc.Spec{ServerProto: p.ServerProto, BatchMode: p.BatchMode, NATTimeout: "60s",
 		RelayBatchSize: p.RelayBatch, ServerRecvBatchSize: p.RecvBatch, ClientProto: p.ClientProto}
@@ -268,6 +342,7 @@ func runPlan(p *plan, workDir string) (out outcome) {
 	}
 	if p.ServerProto == "direct" {
 		spec.TunnelTarget = w.DestAddr(p.TunnelDest).String()
+		spec.TunnelTargetOnly = p.TargetOnly
 	}
 	if udpsvc.IsSS2022(p.ClientProto) {
 		spec.ClientKeys = keysFor(p.ClientProto, p.ClientEIH, p.Seed, 2)
@@ -420,6 +495,9 @@ func runPlan(p *plan, workDir string) (out outcome) {
 func lastDest(s planSession) int {
 	for _, ops := range [][]planOp{s.B, s.A} {
 		for i := len(ops) - 1; i >= 0; i-- {
+			if ops[i].Kind == "tour" {
+				return ops[i].Tour.A
+			}
 			if ops[i].Kind != "rebind" {
 				return ops[i].Dest
 			}
@@ -448,7 +526,7 @@ func (x *exec) nameSessionsThroughDirect() int {
 		uses := false
 		for _, ops := range [][]planOp{s.A, s.B} {
 			for _, o := range ops {
-				if o.Kind != "rebind" && (x.p.Dests[o.Dest].Name || x.p.Dests[o.Alt].Name) {
+				if o.Kind == "tour" || (o.Kind != "rebind" && (x.p.Dests[o.Dest].Name || x.p.Dests[o.Alt].Name)) {
 					uses = true
 				}
 			}
@@ -485,7 +563,7 @@ func (x *exec) judge(out *outcome, fail func(sig, format string, args ...any)) {
 		}
 		if a.Err != nil {
 			sig := "payload-modified"
-			if a.Err == udpsvc.ErrNotTagged || a.Sock >= w.NSock() {
+			if a.Err == udpsvc.ErrNotTagged {
 				sig = "foreign-datagram-at-destination"
 			}
 			fail(sig, "%s received a %d-byte datagram from %s: %v", where, a.Len, a.From, a.Err)
@@ -510,12 +588,17 @@ func (x *exec) judge(out *outcome, fail func(sig, format string, args ...any)) {
 		if d.Name != "" {
 			nameUsed = true
 		}
+		if why, bad := x.forbid[[2]uint32{uint32(t.Session), t.Seq}]; bad && a.Sock >= 0 {
+			fail("unresolvable-name-datagram-delivered", "session %d seq %d was addressed to %s while the resolver answered %s for that name, yet it arrived at socket %d (%s) from %s",
+				t.Session, t.Seq, w.DestAddr(int(t.Target)), why, a.Sock, w.SockAddr(a.Sock), a.From)
+			continue
+		}
 		if a.Sock >= 0 {
-			if d.Sock != a.Sock {
+			if w.DestSock(int(t.Target)) != a.Sock {
 				sig := "misdelivered"
 				out.detector = "misdelivery"
 				fail(sig, "datagram of session %d seq %d addressed to dest %d (%s -> socket %d %s) arrived at socket %d %s (from %s)",
-					t.Session, t.Seq, t.Target, w.DestAddr(int(t.Target)), d.Sock, w.SockAddr(d.Sock), a.Sock, w.SockAddr(a.Sock), a.From)
+					t.Session, t.Seq, t.Target, w.DestAddr(int(t.Target)), w.DestSock(int(t.Target)), w.SockAddr(w.DestSock(int(t.Target))), a.Sock, w.SockAddr(a.Sock), a.From)
 				continue
 			}
 		} else {
@@ -557,8 +640,15 @@ func (x *exec) judge(out *outcome, fail func(sig, format string, args ...any)) {
 				continue
 			}
 			t := r.Tag
-			if t.Scenario != w.Scenario || t.Kind != udpsvc.KindReply {
+			if t.Scenario != w.Scenario || (t.Kind != udpsvc.KindReply && t.Kind != udpsvc.KindReplyExtra) {
 				fail("reply-undecodable", "%s received %+v", at, t)
+				continue
+			}
+			if t.Kind == udpsvc.KindReplyExtra {
+				x.label("extra-reply-delivered-intact")
+			}
+			if p.TargetOnly && int(t.Responder) >= w.NSock() {
+				fail("target-only-violated", "%s: tunnelUDPTargetOnly is set, yet a reply produced by the non-target socket %d (%s) was relayed", at, t.Responder, w.SockAddr(int(t.Responder)))
 				continue
 			}
 			if t.Session != c.ID {
@@ -632,6 +722,12 @@ func (x *exec) finishEvidence(out *outcome) {
 	}
 	if p.V6 {
 		out.labels = append(out.labels, "ipv6-target")
+	}
+	if p.DropFirst != 0 {
+		out.labels = append(out.labels, fmt.Sprintf("drop-first:%d", p.DropFirst), "drop-first:"+p.BatchMode)
+	}
+	if p.TargetOnly {
+		out.labels = append(out.labels, "tunnel-target-only")
 	}
 	if p.ClientEIH {
 		out.labels = append(out.labels, "client-eih")
